@@ -79,15 +79,16 @@ func reference(b hx.Behaviour, po hx.PubOutcome, withPub bool) expect {
 }
 
 type spec struct {
-	WithPub  bool
-	NilPub   bool // (with WithPub false) registered through AddHandler with a nil publisher instead of AddNoPublisherHandler
-	MW       int  // recording pass-through middlewares in front
-	N        int  // messages
-	InFlight bool // several messages in flight concurrently
-	Subset   bool // restricted behaviour alphabet (concurrent scenarios)
-	Stop     bool // the handler is stopped (Handler.Stop) while its messages arrive: what the router still takes, it handles
-	C        int
-	DPOR     bool
+	WithPub    bool
+	NilPub     bool // (with WithPub false) registered through AddHandler with a nil publisher instead of AddNoPublisherHandler
+	MW         int  // recording pass-through middlewares in front
+	N          int  // messages
+	InFlight   bool // several messages in flight concurrently
+	Subset     bool // restricted behaviour alphabet (concurrent scenarios)
+	EmptyTopic bool // (with WithPub) the handler publishes to the empty topic: a topic like any other for a handler that has a publisher
+	Stop       bool // the handler is stopped (Handler.Stop) while its messages arrive: what the router still takes, it handles
+	C          int
+	DPOR       bool
 }
 
 func (s spec) name() string {
@@ -104,6 +105,9 @@ func (s spec) name() string {
 	}
 	if s.Stop {
 		m += "+stop"
+	}
+	if s.EmptyTopic {
+		m += "+empty-publish-topic"
 	}
 	return fmt.Sprintf("%s/mw%d/N%d/%s", k, s.MW, s.N, m)
 }
@@ -180,8 +184,12 @@ func body(sp spec) {
 		return b, iv
 	}
 	var hnd *message.Handler
+	ptopic := "out"
+	if sp.EmptyTopic {
+		ptopic = ""
+	}
 	if sp.WithPub {
-		hnd = r.AddHandler("h", "in", sub, "out", pub, func(m *message.Message) ([]*message.Message, error) {
+		hnd = r.AddHandler("h", "in", sub, ptopic, pub, func(m *message.Message) ([]*message.Message, error) {
 			b, _ := handle(m)
 			return b.Do(m)
 		})
@@ -242,7 +250,7 @@ func body(sp spec) {
 			vs.Fail("no-empty-publish", "Publish called with no messages")
 			continue
 		}
-		if c.Topic != "out" {
+		if c.Topic != ptopic {
 			vs.Fail("publish-topic", "Publish on topic %q", c.Topic)
 		}
 		from := c.Msgs[0].Metadata.Get("from")
@@ -338,6 +346,7 @@ func init() {
 		add(reg.Thorough, 60, spec{WithPub: withPub, MW: 0, N: 3, InFlight: true, Subset: true, C: 1}, 1)
 		if withPub {
 			add(reg.Quick, 20, spec{WithPub: true, MW: 0, N: 1, Subset: true, Stop: true, C: 0}, 1)
+			add(reg.Quick, 5, spec{WithPub: true, MW: 1, N: 1, EmptyTopic: true, C: 0}, 1)
 		}
 	}
 }
